@@ -63,6 +63,10 @@ claimed = {
    text="Two layers. (a) Contracts bind the real key derivation to spec functions: ToSessionKey/ToDbKey/ToKey (and the mem/fs overrides, pathFor/altPathFor) produce exactly type byte + (session prefix for session-scoped types) + key (+ language suffix), SetSession makes the prefix id + '.', Put/Get of the memory and filesystem backends write/read exactly the record of that key. (b) Lemmas over the same spec functions, for all data types, session ids and keys (unbounded strings, decided over the solvers' native string theory): storage keys of different data types are never equal; within a session-scoped type, different (session, key) pairs never share a storage key provided both session ids are non-empty and contain no '.'.",
    note="Known findings: H11 (session id or key containing '.', or the empty session id, address another session's record - the lemma's failing part, with the solver's string model) and H12b (filesystem legacy fallback name crosses data types). Postgres backend: key derivation is the shared ToKey; its Get/Put are covered by C13 only as far as transactions go. Listing (Dump) not covered. Trusted: the lowering of the spec string functions to SMT-LIB strings (define-funs in vcgo), hex/base64/path.Join injective, OS stubs, solvers.",
    ref="4/C11"),
+ "C13": dict(
+   text="Proof of transaction hygiene of the Postgres backend against a driver in which every call (BeginTx, Exec, Query, Next, Scan, Commit, Rollback) may fail at every call site - so every placement of one, two or any number of faults is covered without enumeration: the handle the store holds is live, the number of open transactions it began is exactly one while it holds a handle and zero otherwise (ghost counter: each begun transaction is ended exactly once; no statement, commit or rollback on an ended handle), outside multi-operation mode no transaction is left open after Put/Get/Start/Stop/Abort whatever failed, a multi-operation transaction survives successful Puts, and no path dereferences a nil transaction (automatic no-panic obligations).",
+   note="Two genuine defects repaired (fix: 32db1b3 Put left the transaction open after a failed statement; fix: f7fe844 Abort without a transaction dereferenced nil). Known findings H14c/H14d: Stop and Abort leave the store in multi-operation mode, so a later acknowledged single Put is committed only by Close (the existing TestPostgresTxStartStop expects this, so it is not repaired). Not covered: value semantics (which rows a committed transaction makes visible: SQL text and pgx argument passing are outside reach), Close, Connect/ensureTable, Dump. Trusted: pgx typestate stubs (Commit/Rollback end the transaction also when they report an error), vcgo translation, solvers.",
+   ref="4/C13"),
 }
 
 pending_reason = "pending: contracts for this property are not yet under vcgo (see DESIGN.md section 4)"
